@@ -366,7 +366,10 @@ def campaign(prop, exe, wd, cases, tag, verdict, known, stats, do_model=True):
                 verdict.known_hits[fid] = verdict.known_hits.get(fid, 0) + 1
                 stats['known_samples'].setdefault(fid, {'case': c, 'impl': ires, 'what': v})
             else:
-                small = shrink_case(prop, exe, wd, c, v)
+                if len(verdict.violations) >= 25:
+                    verdict.extra = getattr(verdict, 'extra', 0) + 1
+                    continue
+                small = shrink_case(prop, exe, wd, c, v) if len(verdict.violations) < 3 else c
                 rp = write_replay(prop.ID, {'property': prop.ID, 'kind': 'oracle-violation', 'what': v, 'case': small,
                                             'original_case': c, 'impl': ires, 'seed': stats['seed']})
                 verdict.violation(rp)
